@@ -3,8 +3,8 @@
      tonic-build/src/server.rs        the generated `call`: match req.uri().path() { "/S/M" => .. , _ => 12 }
      axum 0.8 / matchit 0.8           route pattern "/{NAME}/{*rest}" on the raw (undecoded) path
    Strings are byte lists.  No proofs here. *)
-From Verif Require Import Lib.Bytes Lib.Obs.
-From Verif Require Import Gen.StatusTables.
+From Verif Require Import Lib.Bytes Lib.Obs Lib.Base64 Lib.Percent Lib.Utf8 Lib.HeaderMap.
+From Verif Require Import Gen.StatusTables Model.Status.
 Open Scope N_scope.
 
 Definition slash : N := 47.
@@ -113,6 +113,71 @@ Definition status_header (o : outcome) : option N :=
 Definition runs_handler (o : outcome) : bool :=
   match o with Handler _ _ => true | _ => false end.
 
+(* ---- the whole response of the two UNIMPLEMENTED answers (C03: they must be well-formed
+   gRPC "Trailers-Only" responses) ---- *)
+(* "content-type" *)
+Definition hdr_content_type : list N := [99;111;110;116;101;110;116;45;116;121;112;101].
+(* "application/grpc" = tonic::metadata::GRPC_CONTENT_TYPE *)
+Definition val_application_grpc : list N := [97;112;112;108;105;99;97;116;105;111;110;47;103;114;112;99].
+
+Record response := mkResponse {
+  rp_status : N;                 (* HTTP status *)
+  rp_headers : hm;
+  rp_body : list N;              (* concatenated DATA *)
+  rp_trailers : option hm
+}.
+Inductive reply :=
+| ReplyHandler                   (* whatever the handler answers: not the router's business *)
+| Reply (r : response)
+| ReplyPanic.                    (* the `unwrap` in Status::into_http *)
+
+(* router.rs `async fn unimplemented()`:
+   Status::unimplemented("").into_http::<()>() = Response::new(()) (200), insert content-type,
+   add_header(..).unwrap(); then Response::from_parts(parts, Body::empty()) *)
+Definition st_unimplemented : status := mkStatus Code_Unimplemented [] [] [].
+Definition fallback_reply : reply :=
+  match add_header st_unimplemented (hm_insert [] hdr_content_type val_application_grpc) with
+  | Some h => Reply (mkResponse 200 h [] None)
+  | None => ReplyPanic
+  end.
+
+(* HeaderValue::from(i32) of a small non-negative number: its decimal text *)
+Definition hv_of_i32 (n : N) : list N :=
+  if n <? 10 then [48 + n] else [48 + n / 10; 48 + n mod 10].
+(* the default arm of the generated `call`:
+   http::Response::new(Body::default()); insert(GRPC_STATUS, (Code::Unimplemented as i32).into());
+   insert(CONTENT_TYPE, GRPC_CONTENT_TYPE) *)
+Definition default_arm_reply : reply :=
+  Reply (mkResponse 200
+           (hm_insert (hm_insert [] hdr_grpc_status (hv_of_i32 Code_Unimplemented))
+                      hdr_content_type val_application_grpc)
+           [] None).
+
+(* axum RouteFuture::poll, `top_level` only: set_content_length(res.size_hint(), headers) - when
+   no content-length is present and the body's size is exactly known it is written.  The
+   fallback handler's route is polled at top level (Body::empty(): exact size 0); a service
+   registered with route_service is called through Route::call_owned(..).not_top_level(), so
+   the default arm's response leaves Routes as the generated code built it. *)
+Definition hdr_content_length : list N := [99;111;110;116;101;110;116;45;108;101;110;103;116;104].
+Definition content_length_value (n : N) : list N := if n =? 0 then [48] else hv_of_i32 n.
+Definition axum_set_content_length (r : reply) : reply :=
+  match r with
+  | Reply rp =>
+      if hm_contains (rp_headers rp) hdr_content_length then r
+      else Reply (mkResponse (rp_status rp)
+                    (hm_insert (rp_headers rp) hdr_content_length (content_length_value (nlen (rp_body rp))))
+                    (rp_body rp) (rp_trailers rp))
+  | _ => r
+  end.
+
+(* what leaves Routes::call *)
+Definition reply_of (o : outcome) : reply :=
+  match o with
+  | Handler _ _ => ReplyHandler
+  | UnimplService _ => default_arm_reply
+  | UnimplFallback => axum_set_content_length fallback_reply
+  end.
+
 (* ---- permutations, in the order the harness enumerates registration orders ---- *)
 Fixpoint insert_all {A} (x : A) (l : list A) : list (list A) :=
   match l with
@@ -132,7 +197,14 @@ Definition outcome_obs (o : outcome) : tr :=
   | UnimplService s => Nd [Nn 1; Bs s]
   | UnimplFallback => Nd [Nn 2]
   end.
-Definition result_obs (o : outcome) : tr := Nd [outcome_obs o; oopt Nn (status_header o)].
+Definition reply_obs (r : reply) : tr :=
+  match r with
+  | ReplyHandler => Nd [Nn 0]
+  | Reply r => Nd [Nn 1; Nn (rp_status r); hm_canon (rp_headers r); Bs (rp_body r);
+                   oopt hm_canon (rp_trailers r)]
+  | ReplyPanic => Nd [Nn 99]
+  end.
+Definition result_obs (o : outcome) : tr := Nd [outcome_obs o; reply_obs (reply_of o)].
 
 (* registration in the given order, then one request *)
 Definition obs_serve (l : list service) (path : list N) : tr :=
@@ -143,6 +215,12 @@ Definition obs_serve (l : list service) (path : list N) : tr :=
 (* the same request against every registration order *)
 Definition obs_orders (l : list service) (path : list N) : tr :=
   Nd (map (fun p => obs_serve p path) (perms l)).
+(* the same request against sampled registration orders (more than 4 services): each order is
+   a list of indices into [l] *)
+Definition pick {A} (l : list A) (idx : list N) : list A :=
+  flat_map (fun i => match nth_error l (N.to_nat i) with Some x => [x] | None => [] end) idx.
+Definition obs_orders_at (l : list service) (idxs : list (list N)) (path : list N) : tr :=
+  Nd (map (fun ix => obs_serve (pick l ix) path) idxs).
 (* does registration succeed *)
 Definition obs_build (l : list service) : tr :=
   match build l with None => Nd [Nn 0] | Some r => Nd [Nn 1; Nn (nlen r)] end.
